@@ -85,6 +85,7 @@ type Fix struct {
 	Ints           []int
 	IDom           []int
 	Lin            scale.Linear
+	LinRev         scale.Linear // decreasing domain (Min > Max)
 	Log            scale.Log
 	Strings        []string
 	// BG2 is a BiGraph that no harness code ever touches (not even Snapshot), so
@@ -189,6 +190,7 @@ func NewFix(v int) *Fix {
 	f.Ints = []int{3, 1, 2}
 	f.IDom = graphalg.IDom(f.BG, 0)
 	f.Lin = scale.Linear{Min: 0.3, Max: 7.2}
+	f.LinRev = scale.Linear{Min: 7.2, Max: 0.3, Base: 10}
 	f.Log, _ = scale.NewLog(0.5, 700, 10)
 	f.Strings = []string{"a\"b", "x\\y\n"}
 	f.BG2 = graph.MakeBiGraph(graph.IntGraph{{1, 2}, {3}, {3, 1}, {0, 4}, {}})
@@ -235,6 +237,7 @@ func (f *Fix) Snapshot() []byte {
 		e.I(int(c))
 	}
 	e.F(f.Lin.Min, f.Lin.Max, f.Log.Min, f.Log.Max).B(f.Lin.Clamp).B(f.Log.Clamp)
+	e.F(f.LinRev.Min, f.LinRev.Max).I(f.LinRev.Base).B(f.LinRev.Clamp)
 	e.I(int(f.ST.Count)).F(f.ST.Total, f.ST.Min, f.ST.Max, f.ST.Mean(), f.ST.Variance())
 	lu, lb, lo := f.LH.Counts()
 	e.I(int(lu), int(lo))
@@ -423,6 +426,13 @@ var Entries = []Entry{
 	{"scale.Linear.Map/Unmap/Ticks/CountTicks", func(f *Fix) []byte {
 		ma, mi := f.Lin.Ticks(scale.TickOptions{Max: 6})
 		return (&Enc{}).F(f.Lin.Map(2), f.Lin.Unmap(0.3)).Fs(ma).Fs(mi).I(f.Lin.CountTicks(0)).Fs(f.Lin.TicksAtLevel(1).([]float64)).Bytes()
+	}, "scale"},
+	{"scale.Linear(decreasing domain).Ticks/Map", func(f *Fix) []byte {
+		// methods are called on the shared fixture itself (through its address where they
+		// have pointer receivers), not on a copy
+		l := &f.LinRev
+		ma, mi := l.Ticks(scale.TickOptions{Max: 6})
+		return (&Enc{}).Fs(ma).Fs(mi).I(l.CountTicks(0)).F(l.Map(2), l.Unmap(0.3)).Bytes()
 	}, "scale"},
 	{"scale.Log.Map/Unmap/Ticks", func(f *Fix) []byte {
 		ma, mi := f.Log.Ticks(scale.TickOptions{Max: 5})
